@@ -1,7 +1,7 @@
 """C17 - verdicts do not depend on the order of SAN entries or of extensions."""
 import common
 
-THEOREMS = ["c17_first_offender_perm", "c17_label_lints_perm", "c17_na_first_refuted", "c17_find_ext_perm", "c17_name_lints_perm", "c17_name_lints_range", "c17_name_twins_agree", "c17_gn_lints_perm", "c17_raw_lints_perm", "c17_cn_san_lints_perm", "c17_cn_exact_spec"]
+THEOREMS = ["c17_first_offender_perm", "c17_label_lints_perm", "c17_na_first_refuted", "c17_find_ext_perm", "c17_name_lints_perm", "c17_name_lints_range", "c17_name_twins_agree", "c17_gn_lints_perm", "c17_raw_lints_perm", "c17_cn_san_lints_perm", "c17_cn_exact_spec", "c17_subject_length_lints_perm", "c17_subject_length_spec"]
 
 # lints that walk c.Extensions themselves (reviewed: they look extensions up by OID or test every element)
 ALLOW_EXT_READERS = None  # recorded, not gated: the dynamic permutation run decides
@@ -46,6 +46,14 @@ def run(ctx):
     common.require_outcomes(ctx, "cnsan", d["cases"].get("cnsan", []), [{"1", "3", "6"}, {"1", "3", "6"}, {"1", "3", "4"}, {"1", "3", "6"}])
     if not mon:
         common.report_disagreements(ctx, "cnsan", fc, "Kernels.CnSan (c17_cn_san_lints_perm applies to the model only)", [])
+    lheader = ("From ZL Require Import Base.Bytes Base.Corr Kernels.SubjLen.\nFrom Coq Require Import ZArith List.\nImport ListNotations.\nOpen Scope Z_scope.\n"
+               "Fixpoint zl_eq (m o : list Z) : bool := match m, o with [], [] => true | x :: m', y :: o' => (x =? y) && zl_eq m' o' | _, _ => false end.\n"
+               "Definition chkl (c : list (list bytes) * list Z) : bool := zl_eq (all_len_lints (fst c)) (snd c).\n")
+    fl = common.corr_stream(ctx, "subjlen", d["cases"].get("subjlen", []), lheader, "chkl",
+                            "SubjLen.all_len_lints (thirteen subject-attribute length lints; characters counted as utf8.RuneCountInString does) vs the real lints by direct call", shard=60)
+    common.require_outcomes(ctx, "subjlen", d["cases"].get("subjlen", []), [{"1", "3", "6"}] * 4 + [{"1", "3", "5"}] + [{"1", "3", "6"}] * 7 + [{"1", "3", "5"}])
+    if not mon:
+        common.report_disagreements(ctx, "subjlen", fl, "Kernels.SubjLen (c17_subject_length_lints_perm applies to the model only)", [])
     # static (go/ast, regenerated): no loop over a SAN name list, or over the extension list, can leave with two different statuses
     san_fields = {"DNSNames", "EmailAddresses", "URIs", "IPAddresses", "OtherNames", "DirectoryNames", "EDIPartyNames", "RegisteredIDs", "FailedToParseNames",
                   "PermittedDNSNames", "ExcludedDNSNames"}
